@@ -20,41 +20,41 @@ theorem xslot_cons_ne (done : List (Nat × Val)) (id eid : Nat) (y : Val) (d : B
   unfold xslot
   simp only [List.lookup_cons, hk]
 
-/-- **Cross-version read.** Writer definition `(eW, tW)` and reader definition `(eR, tR)` of the
-same table (same hash): any two well-formed entry lists — any subsets of a pool of ids, in any
-orders, with any entries marked deleted on either side — such that an id active in both has
-entry types whose encodings the reader's type reads back to the same value (`XRT`: the same
-type, or a fungible one). Then whatever the writer wrote (`vw`: each entry empty or holding a
-value) is read successfully by the reader from any clean source, followed by any further data,
-inside any admissible stack of bounded readers: the reader ends **exactly after the table** and
-holds, for each of its entries, `xslot`: the writer's value if the id is active in both and the
-writer's entry was non-empty, otherwise empty. -/
-theorem C07_cross_version (hash : Nat) (eW eR : List (Nat × Bool)) (tW tR : List Ty)
+/-- **Cross-version read**, in relational form. Writer definition `(eW, tW)` and reader
+definition `(eR, tR)` of the same table (same hash): any two well-formed entry lists - any
+subsets of a pool of ids, in any orders, with any entries marked deleted on either side - such
+that an id active in both has entry types related by `XR ... (F id)`: what the writer's type
+wrote, the reader's type reads as `F id` of the value (`F id = id` for the same or a fungible
+type; for an entry that is itself a table whose definition changed, `F id` is that table's own
+cross-version projection - this theorem again). Then whatever the writer wrote (`vw`: each entry
+empty or holding a value) is read successfully by the reader from any clean source, followed by
+any further data, inside any admissible stack of bounded readers, into a destination holding
+anything: the reader ends **exactly after the table** and holds, for each of its entries,
+`xslot`: the (projected) value if the id is active in both and the writer's entry was
+non-empty, otherwise empty. -/
+theorem C07_cross_version_xr (F : Nat → Val → Val) (hash : Nat) (eW eR : List (Nat × Bool)) (tW tR : List Ty)
     (hwfW : (Ty.table hash eW tW).wf = true) (hwfR : (Ty.table hash eR tR).wf = true)
-    (hx : ∀ p ∈ eW.zip tW, ∀ q ∈ eR.zip tR, p.1.1 = q.1.1 → q.1.2 = false → XRT p.2 q.2)
-    (vw : List Val) (h : HChan) (bs : Bytes) (h' : HChan) (prior : Val)
-    (hv : valid (.table hash eW tW) (.list vw) = true) (he : encode (.table hash eW tW) (.list vw) h = .ok (bs, h'))
-    (s : Src) (rest : Bytes) (hc : s.fault = .none) (hb : s.bytes = bs ++ rest)
-    (hf : framesOk bs.length s.frames = true) (hr : Resolves s.handles h'.pushed) :
-    decInto (.table hash eR tR) prior s = (.ok (.list (eR.map (xslot (present eW vw)))), s.adv bs.length) := by
+    (hx : ∀ p ∈ eW.zip tW, ∀ q ∈ eR.zip tR, p.1.1 = q.1.1 → q.1.2 = false → XR p.2 q.2 (F p.1.1)) :
+    XR (.table hash eW tW) (.table hash eR tR) (fun v => .list (eR.map (xslot (presentF F eW v.elems)))) := by
+  intro v h bs h' prior hv he
   simp only [Ty.wf, Bool.and_eq_true, decide_eq_true_eq, beq_iff_eq, List.all_eq_true] at hwfW hwfR
   obtain ⟨⟨⟨⟨⟨_, hhW⟩, _⟩, hdW⟩, hltW⟩, _⟩ := hwfW
   obtain ⟨⟨⟨⟨⟨_, _⟩, hlR⟩, hdR⟩, _⟩, hnR⟩ := hwfR
-  simp only [valid] at hv
-  simp only [encode] at he
-  cases hp : encEntries eW tW vw h with
-  | error er => simp [hp] at he
-  | ok r =>
-    obtain ⟨ebs, h2⟩ := r
-    simp only [hp, Except.ok.injEq, Prod.mk.injEq] at he
-    obtain ⟨rfl, rfl⟩ := he
-    have hlen := validEntries_length eW tW vw hv
-    have hac : activeCount vw < 2 ^ 64 := by
-      have := activeCount_le vw
-      have : tW.length < 2 ^ 64 := by assumption
-      omega
-    have hd : DecOK (decInto (.table hash eR tR) prior) (.list (eR.map (xslot (present eW vw))))
-        (0xb5 :: encInt .u64 hash ++ encSize (activeCount vw) ++ ebs) h2.pushed := by
+  cases v with
+  | list vw =>
+    simp only [valid] at hv
+    simp only [encode] at he
+    cases hp : encEntries eW tW vw h with
+    | error er => simp [hp] at he
+    | ok r =>
+      obtain ⟨ebs, h2⟩ := r
+      simp only [hp, Except.ok.injEq, Prod.mk.injEq] at he
+      obtain ⟨rfl, rfl⟩ := he
+      have hlen := validEntries_length eW tW vw hv
+      have hac : activeCount vw < 2 ^ 64 := by
+        have := activeCount_le vw
+        have : tW.length < 2 ^ 64 := by assumption
+        omega
       refine DecOK.withPrefix (p := 0xb5) (by simp [matchP]) ?_
       simp only [decPayload]
       refine DecOK.bind (b2 := encSize (activeCount vw) ++ ebs) (DecOK.decInt (u64_inRange hhW)) ?_
@@ -62,13 +62,71 @@ theorem C07_cross_version (hash : Nat) (eW eR : List (Nat × Bool)) (tW tR : Lis
       simp only [bne_self_eq_false, Bool.false_eq_true, ↓reduceIte]
       refine DecOK.bind (DecOK.decSize hac) ?_ rfl
       refine DecOK.map (g := Val.list) ?_
-      have := xEntries eR tR hlR hdR tW eW vw [] h ebs h2 (fun e he => by simpa using hltW e he) hdW
+      have := xEntriesF F eR tR hlR hdR tW eW vw [] h ebs h2 (fun e he => by simpa using hltW e he) hdW
         (fun _ _ => rfl) hx hv hp
       have hinit : eR.map (xslot []) = List.replicate tR.length Val.nil := by
         rw [← hlR]; exact map_xslot_nil eR
       rw [hinit] at this
-      simpa using this
-    exact hd s rest hc hb hf hr
+      simpa [Val.elems] using this
+  | _ => simp [valid] at hv
+
+/-- **Cross-version read** with the values carried across unchanged (every id active in both has
+the same or a fungible entry type: `XR ... id`). -/
+theorem C07_cross_version (hash : Nat) (eW eR : List (Nat × Bool)) (tW tR : List Ty)
+    (hwfW : (Ty.table hash eW tW).wf = true) (hwfR : (Ty.table hash eR tR).wf = true)
+    (hx : ∀ p ∈ eW.zip tW, ∀ q ∈ eR.zip tR, p.1.1 = q.1.1 → q.1.2 = false → XR p.2 q.2 id)
+    (vw : List Val) (h : HChan) (bs : Bytes) (h' : HChan) (prior : Val)
+    (hv : valid (.table hash eW tW) (.list vw) = true) (he : encode (.table hash eW tW) (.list vw) h = .ok (bs, h'))
+    (s : Src) (rest : Bytes) (hc : s.fault = .none) (hb : s.bytes = bs ++ rest)
+    (hf : framesOk bs.length s.frames = true) (hr : Resolves s.handles h'.pushed) :
+    decInto (.table hash eR tR) prior s = (.ok (.list (eR.map (xslot (present eW vw)))), s.adv bs.length) := by
+  have := C07_cross_version_xr (fun _ x => x) hash eW eR tW tR hwfW hwfR hx (.list vw) h bs h' prior hv he s rest hc hb hf hr
+  simpa [presentF_id, Val.elems] using this
+
+/-! ### Version pairs nested inside other values -/
+
+/-- ... in a **structure / tuple**, followed (and preceded) by further members -/
+theorem C07_nested_in_structure (k : PKind) (abfs : List (Ty × Ty × (Val → Val))) (hx : ∀ x ∈ abfs, XR x.1 x.2.1 x.2.2)
+    (hlen : abfs.length < 2 ^ 64) :
+    XR (.prod k (abfs.map (·.1))) (.prod k (abfs.map (·.2.1))) (fun v => .list (applyAll (abfs.map (·.2.2)) v.elems)) :=
+  XR.prod k abfs hx hlen
+
+/-- ... in a **vector** -/
+theorem C07_nested_in_vector (a b : Ty) (g : Val → Val) (hab : XR a b g) (ha : a.integral = false) (hb : b.integral = false) :
+    XR (.seq .vector a) (.seq .vector b) (fun v => .list (v.elems.map g)) :=
+  XR.vector hab ha hb
+
+/-- ... in an **Optional** -/
+theorem C07_nested_in_optional (a b : Ty) (g : Val → Val) (hab : XR a b g) (hnil : matchP b 0xbe = false) :
+    XR (.opt a) (.opt b) (optMap g) :=
+  XR.opt hab hnil
+
+/-- ... in **another table's entry**: `C07_cross_version_xr` itself, with `F id` the inner pair's
+projection. Worked instance (hypotheses discharged): an outer table whose entry 1 holds a table
+that gained entry 7 and lost entry 1, next to an unchanged entry 2; the outer reader also lists
+its entries in the other order. -/
+example :
+    let u8 := Ty.int .u8 .plain
+    let Wi := Ty.table 200 [(1, false), (2, false)] [u8, u8]
+    let Ri := Ty.table 200 [(2, false), (7, false)] [u8, u8]
+    let G : Val → Val := fun v => .list ([(2, false), (7, false)].map (xslot (presentF (fun _ x => x) [(1, false), (2, false)] v.elems)))
+    let F : Nat → Val → Val := fun id => if id = 1 then G else fun x => x
+    XR (.table 300 [(1, false), (2, false)] [Wi, u8]) (.table 300 [(2, false), (1, false)] [u8, Ri])
+      (fun v => .list ([(2, false), (1, false)].map (xslot (presentF F [(1, false), (2, false)] v.elems)))) := by
+  intro u8 Wi Ri G F
+  have hin : XR Wi Ri G := by
+    refine C07_cross_version_xr (fun _ x => x) 200 _ _ _ _ (by decide) (by decide) ?_
+    intro p hp q hq hid hact
+    simp only [List.zip_cons_cons, List.zip_nil_right, List.mem_cons, List.not_mem_nil, or_false] at hp hq
+    rcases hp with rfl | rfl <;> rcases hq with rfl | rfl <;> simp at hid
+    exact XR.refl _ (by decide)
+  refine C07_cross_version_xr F 300 _ _ _ _ (by decide) (by decide) ?_
+  intro p hp q hq hid hact
+  simp only [List.zip_cons_cons, List.zip_nil_right, List.mem_cons, List.not_mem_nil, or_false] at hp hq
+  rcases hp with rfl | rfl <;> rcases hq with rfl | rfl <;> simp at hid
+  · exact hin
+  · exact XR.refl _ (by decide)
+
 
 /-- both definitions are the same apart from adding, removing, deleting and reordering entries:
 every id active in both has the same (well-formed) entry type — no further hypothesis needed -/
@@ -86,7 +144,7 @@ theorem C07_same_types (hash : Nat) (eW eR : List (Nat × Bool)) (tW tR : List T
   have hwq : q.2.wf = true := by
     simp only [Ty.wf, Bool.and_eq_true] at hwfR
     exact wfL_mem tR q.2 hwfR.1.1.1.1.1 (List.of_mem_zip hq).2
-  exact XRT.refl q.2 hwq
+  exact XR.refl q.2 hwq
 
 /-- entries the reader has marked deleted read as nothing -/
 theorem C07_deleted_skipped (done : List (Nat × Val)) (id : Nat) : xslot done (id, true) = .nil := rfl
